@@ -52,6 +52,47 @@ func applyFn(dt *dtInfo) interface{} {
 	return func(x bool) bool { return x }
 }
 
+func withErr[T any](f func(T) T) func(T) (T, error) { return func(x T) (T, error) { return f(x), nil } }
+
+// applyErrFn: the same function in the error-returning form the map kernels also accept (`func(T) (T, error)`).
+func applyErrFn(dt *dtInfo) interface{} {
+	switch f := applyFn(dt).(type) {
+	case func(int) int:
+		return withErr(f)
+	case func(int8) int8:
+		return withErr(f)
+	case func(int16) int16:
+		return withErr(f)
+	case func(int32) int32:
+		return withErr(f)
+	case func(int64) int64:
+		return withErr(f)
+	case func(uint) uint:
+		return withErr(f)
+	case func(uint8) uint8:
+		return withErr(f)
+	case func(uint16) uint16:
+		return withErr(f)
+	case func(uint32) uint32:
+		return withErr(f)
+	case func(uint64) uint64:
+		return withErr(f)
+	case func(float32) float32:
+		return withErr(f)
+	case func(float64) float64:
+		return withErr(f)
+	case func(complex64) complex64:
+		return withErr(f)
+	case func(complex128) complex128:
+		return withErr(f)
+	case func(string) string:
+		return withErr(f)
+	case func(bool) bool:
+		return withErr(f)
+	}
+	return nil
+}
+
 func (p *prog) stepUn(toks []string) *rec {
 	if len(toks) < 3 {
 		return simple("badprog")
@@ -75,6 +116,8 @@ func (p *prog) stepUn(toks []string) *rec {
 		switch {
 		case op == "apply":
 			ret, err = a.Apply(applyFn(adt), opts...)
+		case op == "applyerr":
+			ret, err = a.Apply(applyErrFn(adt), opts...)
 		case op == "clamp":
 			if len(params) != 2 {
 				return nil, fmt.Errorf("clamp needs two bounds")
